@@ -444,12 +444,21 @@ map against the value it yields):
   Before that repair `sort: key` did NOT (a drop that yields nil was not sorted first; a key that is an array holding a
   drop printed the drop's Go struct) and `sort_natural: key` did not either (the same name); the three former
   counterexamples are theorems of the opposite statement below;
-* `sort_natural`: NOT DONE for `d = true` (`Proofs/RepEqSort.lean` proves it for `d = false`); after the repair no
-  difference is known on the real engine. It is left out of the theorem together with `json`, `inspect`, `type`
-  (`nestedDropsOpen`). -/
+* `sort_natural` and `sort_natural: key` respect them (`ArrF.sortNatural_respects_gen d`, up to the `unmodelled` tie order
+  beyond 12 elements): `sortNaturalFilter` looks at its elements as they are (`v == nil`, `reflect.ValueOf(m)`), and the
+  elements of its `[]any` parameter went through `ToLiquid` in `Convert` (an element that is a drop of a string, a drop of
+  a drop, a drop that yields nil IS that value there: `ArrF.NLD` carries "no element is a drop" through the insertion
+  sort and the decoration); the sort text is `fmt.Sprint(values.ResolveDrops(v))` (`ArrF.natKey_repEq_noDrop`), with a
+  key it is the entry `m[key]` passed through `ToLiquid` before the string test (`ArrF.natKeyBy_repEq_noDrop`), and the
+  name of the key is `fmt.Sprint(values.ResolveDrops(key))`. Run on the real engine of /repo (1b08585) with elements
+  that are drops of strings, drops of drops, drops that yield nil, maps whose entry under the key is a drop / a drop of a
+  drop / `Drop(nil)`, mixed with plain strings and nil, 3 to 20 elements: every render equals the render of the generic
+  twin (rows `sort-natural-*` of `repsNestedDropFamily`, harness/stream_reps.go);
+* `json`, `inspect`, `type` print the Go representation by design: they are the only filters left out (`nestedDropsOpen`,
+  the same list as `reprFilters` of the `d = false` theorem `run_std_rep_independent_without_repr_filters`). -/
 
 /-- *The standard comparison and filter layer respects drops nested in containers*, on an engine without
-`sort_natural`, `json`, `inspect`, `type` (`nestedDropsOpen`): related operands (`VRel true`: the same Liquid value, any Go
+`json`, `inspect`, `type` (`nestedDropsOpen` = `reprFilters`; `sort_natural` is on it): related operands (`VRel true`: the same Liquid value, any Go
 representation, drops at any depth) compare alike under `==`, `<`, `contains` and `case`/`when`, and related filter
 inputs give related results — up to `unmodelled` results (`t = true`). -/
 theorem stdPrims_respect_nested_drops (allowed : Bytes → Bool) (hopen : ∀ n ∈ nestedDropsOpen, allowed n = false) :
@@ -463,11 +472,11 @@ theorem std_filter_respects_nested_drops (name : Bytes) (h : name ∉ openFilter
   filterRespects_std false true name h
 
 /-- **C18 for the standard configuration with drops nested in containers** (partial: `allowed` must exclude
-`nestedDropsOpen`). Full statement wanted: the same for `stdPrims` (every filter registered). What is missing, and why:
+`nestedDropsOpen` = `json`, `inspect`, `type`). Full statement wanted: the same for `stdPrims` (every filter registered).
+What is missing, and why — the same and only exclusion as in the theorem without nested drops
+(`run_std_rep_independent_without_repr_filters`):
 * `json`, `inspect`, `type` observe the Go representation (counterexamples above; `{{ m | json }}` with
-  `m = {"a": Drop(1)}` is `{"a":{}}`);
-* NOT DONE: `sort_natural` on values with nested drops (no difference known on the real engine after
-  `fixes/sort-key-drops`; `Proofs/RepEqSort.lean` proves its congruence for `d = false`). -/
+  `m = {"a": Drop(1)}` is `{"a":{}}`). -/
 theorem run_std_rep_independent_nested_drops_partial (allowed : Bytes → Bool) (hopen : ∀ n ∈ nestedDropsOpen, allowed n = false)
     (cfg : Cfg) (fs : FS) (fuel : Nat) (src : Bytes) (line : Nat) (env env' : Env)
     (he : ∀ x, ERel true (env.get x) (env'.get x)) :
@@ -475,8 +484,9 @@ theorem run_std_rep_independent_nested_drops_partial (allowed : Bytes → Bool) 
       (run (stdPrimsOnly allowed) stdOut cfg fs fuel src line env') :=
   run_rel _ _ cfg fs fuel (stdPrims_respect_nested_drops allowed hopen) (stdOut_respects true true) src line he
 
-/-- **C18 with nested drops, for the standard engine without `sort_natural`, `json`, `inspect`, `type`**
-(`withoutNestedOpen`): no hypothesis left. Every template, every configuration, file system and include depth: two
+/-- **C18 with nested drops, for the standard engine without `json`, `inspect`, `type`**
+(`withoutNestedOpen`, the engine of `run_std_rep_independent_without_repr_filters`: `withoutNestedOpen_eq_withoutRepr`;
+`sort`, `sort_natural` and every other standard filter are on it): no hypothesis left. Every template, every configuration, file system and include depth: two
 environments whose bindings have the same Liquid values in any Go representation — typed or generic slices and maps,
 fixed arrays, drops (and drops that yield drops) at ANY depth of arrays and maps, drops and pointers around a binding
 — render to agreeing results (`RunAgree true`: the same output or the same error, or one of the two runs is outside
@@ -496,11 +506,28 @@ theorem run_std_rep_independent_nested_drops_vrel (cfg : Cfg) (fs : FS) (fuel : 
   run_std_rep_independent_nested_drops cfg fs fuel src line env env'
     (fun x => binding_related_of_unwrap (he x) (hr x) (hr' x))
 
-/-- `sort`, `uniq`, `compact`, `join`, `map`, `first` are on that engine; `sort_natural` is not -/
+/-- **The same on the engine of `run_std_rep_independent_without_repr_filters`, spelled with its name** (`withoutRepr`: the
+standard engine without `json`, `inspect`, `type`): what that theorem says for typed against generic containers and
+wrappers around a binding (`ERel false`) holds as well for drops at ANY depth of arrays and maps (`ERel true`) — with
+`sort`, `sort_natural` and every other standard filter registered. -/
+theorem run_std_rep_independent_nested_drops_without_repr_filters (cfg : Cfg) (fs : FS) (fuel : Nat) (src : Bytes) (line : Nat)
+    (env env' : Env) (he : ∀ x, ERel true (env.get x) (env'.get x)) :
+    RunAgree true (run (stdPrimsOnly withoutRepr) stdOut cfg fs fuel src line env)
+      (run (stdPrimsOnly withoutRepr) stdOut cfg fs fuel src line env') :=
+  withoutNestedOpen_eq_withoutRepr ▸ run_std_rep_independent_nested_drops cfg fs fuel src line env env' he
+
+/-- `sort_natural` respects drops nested in containers, as a statement about the filter alone (every name spelling,
+    without key, with a string key, with any key argument): related receivers and arguments (`VRel true`) give related
+    results, up to the `unmodelled` tie order beyond 12 elements -/
+theorem sort_natural_respects_nested_drops : FilterRespects true true (ArrF.bn "sort_natural") :=
+  filterRespects_std_nested _ (by decide +kernel)
+
+/-- `sort`, `sort_natural`, `uniq`, `compact`, `join`, `map`, `first` are on that engine; `json`, `inspect`, `type` are not -/
 example : withoutNestedOpen (ArrF.bn "sort") = true ∧ withoutNestedOpen (ArrF.bn "uniq") = true ∧
     withoutNestedOpen (ArrF.bn "compact") = true ∧ withoutNestedOpen (ArrF.bn "join") = true ∧
     withoutNestedOpen (ArrF.bn "map") = true ∧ withoutNestedOpen (ArrF.bn "first") = true ∧
-    withoutNestedOpen (ArrF.bn "sort_natural") = false := by
+    withoutNestedOpen (ArrF.bn "sort_natural") = true ∧ withoutNestedOpen (JsonF.bn "json") = false ∧
+    withoutNestedOpen (JsonF.bn "inspect") = false ∧ withoutNestedOpen (JsonF.bn "type") = false := by
   decide +kernel
 
 /-- a concrete instance: `m` is a map holding a typed array that holds a drop of a drop — against the generic map of
@@ -580,3 +607,62 @@ theorem sort_natural_key_name_drops_repaired :
       (stdPrims.applyFilter (ArrF.bn "map") s [.str [110]]).bind fun m => stdPrims.applyFilter (ArrF.bn "join") m [])
       = [121, 32, 120] := by
   decide +kernel
+
+/-! ### `sort_natural` on values with nested drops (`ArrF.sortNatural_respects_gen`)
+
+The general statement is `sort_natural_respects_nested_drops` / `run_std_rep_independent_nested_drops`; the two
+statements below are evaluated instances, on the templates and bindings that were also run on the real engine of /repo
+(1b08585; rows `sort-natural-elements-drops` and `sort-natural-key-entries-drops` of `repsNestedDropFamily`), which
+renders what the model computes with both bindings. -/
+
+/-- *`sort_natural` sees the values of the drops among its elements.* Template `{{ a | sort_natural | join: "," }}` with
+`a = [Drop("b"), "C", Drop(Drop("a")), nil, Drop(nil), "B"]` renders `a,b,B,C` (the two nils first; `join` skips them),
+as with `a = ["b", "C", "a", nil, nil, "B"]`: `Convert` to `[]any` passes every element through `ToLiquid`. -/
+theorem sort_natural_elements_drops_evaluated :
+    strOfRes ((stdPrims.applyFilter (ArrF.bn "sort_natural")
+        (.slice .any [.drop (.str [98]), .str [67], .drop (.drop (.str [97])), .nil, .drop .nil, .str [66]]) []).bind fun s =>
+      stdPrims.applyFilter (ArrF.bn "join") s [.str [44]]) = [97, 44, 98, 44, 66, 44, 67] ∧
+    strOfRes ((stdPrims.applyFilter (ArrF.bn "sort_natural")
+        (.slice .any [.str [98], .str [67], .str [97], .nil, .nil, .str [66]]) []).bind fun s =>
+      stdPrims.applyFilter (ArrF.bn "join") s [.str [44]]) = [97, 44, 98, 44, 66, 44, 67] := by
+  decide +kernel
+
+/-- *`sort_natural: key` sees the values of the drops under the key.* Template `{{ a | sort_natural: k | map: "n" | join }}`
+with `k = Drop("k")` and `a = [{"k": Drop("b"), "n": "1"}, {"k": Drop(nil), "n": "2"}, Drop({"k": Drop(Drop("A")), "n": "3"}),
+{"n": "4"}, {"k": "C", "n": "5"}]` renders `2 4 3 1 5` (no string under the key: first, in their order; then `A`, `b`,
+`C`), as with `k = "k"` and the drops replaced by what they yield. -/
+theorem sort_natural_key_entries_drops_evaluated :
+    strOfRes ((stdPrims.applyFilter (ArrF.bn "sort_natural") (.slice .any [
+        .map .str .any [(.str [107], .drop (.str [98])), (.str [110], .str [49])],
+        .map .str .any [(.str [107], .drop .nil), (.str [110], .str [50])],
+        .drop (.map .str .any [(.str [107], .drop (.drop (.str [65]))), (.str [110], .str [51])]),
+        .map .str .any [(.str [110], .str [52])],
+        .map .str .any [(.str [107], .str [67]), (.str [110], .str [53])]]) [.drop (.str [107])]).bind fun s =>
+      (stdPrims.applyFilter (ArrF.bn "map") s [.str [110]]).bind fun m => stdPrims.applyFilter (ArrF.bn "join") m [])
+      = [50, 32, 52, 32, 51, 32, 49, 32, 53] ∧
+    strOfRes ((stdPrims.applyFilter (ArrF.bn "sort_natural") (.slice .any [
+        .map .str .any [(.str [107], .str [98]), (.str [110], .str [49])],
+        .map .str .any [(.str [107], .nil), (.str [110], .str [50])],
+        .map .str .any [(.str [107], .str [65]), (.str [110], .str [51])],
+        .map .str .any [(.str [110], .str [52])],
+        .map .str .any [(.str [107], .str [67]), (.str [110], .str [53])]]) [.str [107]]).bind fun s =>
+      (stdPrims.applyFilter (ArrF.bn "map") s [.str [110]]).bind fun m => stdPrims.applyFilter (ArrF.bn "join") m [])
+      = [50, 32, 52, 32, 51, 32, 49, 32, 53] := by
+  decide +kernel
+
+/-- the whole-template theorem on a template with `sort_natural`: `{{ a | sort_natural | join }}` with `a` an array of a
+    drop of a string, a plain string, a drop of a drop and a drop that yields nil, against the generic array of the values -/
+example (cfg : Cfg) (fs : FS) (fuel : Nat) :
+    RunAgree true
+      (run (stdPrimsOnly withoutNestedOpen) stdOut cfg fs fuel
+        [123, 123, 32, 97, 32, 124, 32, 115, 111, 114, 116, 95, 110, 97, 116, 117, 114, 97, 108, 32, 124, 32, 106, 111, 105, 110, 32, 125, 125] 1
+        [([97], .slice .any [.drop (.str [98]), .str [67], .drop (.drop (.str [97])), .drop .nil])])
+      (run (stdPrimsOnly withoutNestedOpen) stdOut cfg fs fuel
+        [123, 123, 32, 97, 32, 124, 32, 115, 111, 114, 116, 95, 110, 97, 116, 117, 114, 97, 108, 32, 124, 32, 106, 111, 105, 110, 32, 125, 125] 1
+        [([97], .slice .any [.str [98], .str [67], .str [97], .nil])]) := by
+  refine run_std_rep_independent_nested_drops cfg fs fuel _ 1 _ _ (fun y => ?_)
+  by_cases h : y = [97]
+  · subst h
+    exact binding_related_of_repEq (by simp [Env.get, RepEq, norm, normList, dropRigid, isRec, cyclesOf])
+  · have : ([97] == y) = false := by simp [Ne.symm h]
+    simp [Env.get, List.find?, this, ERel.refl]
